@@ -112,6 +112,15 @@ class Interface(ModelElement):
         assert name is not None
         assert self.type is InterfaceType.DedicatedPort
 
+        # refresh the cached children from the model: another object for the same interface
+        # may have added or removed sub-interfaces since this one was created
+        current_ids = self.topo.graph_model.get_all_child_connection_points(interface_id=self.node_id)
+        if set(current_ids) != {i.node_id for i in self._interfaces}:
+            self._interfaces = [Interface(node_id=iid, topo=self.topo,
+                                          name=self.topo.graph_model.get_node_properties(node_id=iid)[1][
+                                              ABCPropertyGraph.PROP_NAME])
+                                for iid in current_ids]
+
         # check uniqueness
         all_names = [n.name for n in self._interfaces]
         if name in all_names:
